@@ -25,7 +25,9 @@ CHECKS = {
                  "fsync, with no call between it and os.replace; base_hash guards are not weakened by conjuncts (unless the complementary case is rejected); "
                  "corrections_only return dominates all mutating calls; no error envelope is reachable after os.replace; no await is reachable; "
                  "compare->replace must sit in an inter-process critical section (none exists: recorded known finding); no error return after an un-undone "
-                 "mutation (parent mkdir: recorded known finding). The register-model histories are not executed."),
+                 "mutation (parent mkdir: recorded known finding); every exit reachable from mkstemp that does not complete os.replace (exception edges "
+                 "included) passes os.unlink(temp) (R17.10). A compare that lives in a helper returning (content, error|None) is followed by a callee summary. "
+                 "The register-model histories are not executed."),
         "note": ("Histories and interleavings are not enumerated; the rules are necessary conditions visible in the code's shape. The lost-update window between two "
                  "processes is reported from the absence of any lock (known finding), not explored."),
     },
